@@ -327,6 +327,10 @@ def parse_rvalue(s):
 def _rvalue(s):
     if s.startswith("no_retag "):
         s = s[len("no_retag "):].strip()
+    m = re.match(r"^&raw (const|mut) \(fake\) (.*)$", s)
+    if m:
+        # the bounds-check idiom `_a = &raw const (fake) (*_s); _n = PtrMetadata(move _a)`: only the slice length is read
+        return RefOf(parse_place(m.group(2).strip()), False)
     if s.startswith("&raw "):
         return Unsupported(s)
     if s.startswith("&mut "):
@@ -394,7 +398,7 @@ def _rvalue(s):
         i = _last_top_open(s, "(")
         if i is not None and i > 0:
             name = s[:i].strip()
-            if re.match(r"^[\w:<>, '&\[\];]+$", name):
+            if re.match(r"^[\w:<>, '&\[\];()]+$", name):
                 ops = [parse_operand(x) for x in split_top(s[i + 1:-1]) if x]
                 return Aggregate("tstruct", name, ops)
     if re.match(r"^[A-Za-z_][\w:<>, '&\[\];()]*$", s):
